@@ -155,6 +155,13 @@ impl CountMinSketch {
     }
 }
 
+#[cfg(transparencies_stretto_verif)]
+impl CountMinSketch {
+    pub(crate) fn verif_params(&self) -> ([u64; DEPTH], u64) {
+        (self.seeds, self.mask)
+    }
+}
+
 #[cfg(test)]
 mod test {
     use super::*;
